@@ -90,6 +90,18 @@ end
 rule "reader" salience -9 begin
   probe3(Shared.V)
 end
+rule "nest" salience -13 begin
+  forRange b1 := Shared.Tags2 {
+    if b1 == 0 { break }
+  }
+  ncnt = 0
+  forRange o1 := Shared.Tags2 {
+    forRange i1 := Shared.Tags2 {
+      ncnt += 1
+    }
+  }
+  probe8(ncnt)
+end
 rule "opt" salience -12 begin
   Opt = 7
 end
@@ -122,6 +134,14 @@ end
 		mu.Unlock()
 	}
 	cur := new(int64)
+	// loops keep nothing between executions: after a loop that was left by break, two nested loops over a
+	// 3-element slice make 9 inner passes
+	var seen8 []int64
+	probe8 := func(n int64) {
+		mu.Lock()
+		seen8 = append(seen8, n)
+		mu.Unlock()
+	}
 	var seen3 []int64
 	probe3 := func(v int64) {
 		mu.Lock()
@@ -140,7 +160,7 @@ end
 			seen5.Store(fmt.Sprintf("got %d, the rule's own function gives %d", got, want))
 		}
 	}
-	apis := map[string]interface{}{"probe6": probe6, "Cur": cur, "probe4": probe4, "probe5": probe5,
+	apis := map[string]interface{}{"probe8": probe8, "probe6": probe6, "Cur": cur, "probe4": probe4, "probe5": probe5,
 		"pickdouble": func() func(int64) int64 { return func(x int64) int64 { return 2 * x } },
 		"picktriple": func() func(int64) int64 { return func(x int64) int64 { return 3 * x } },
 		"once": once, "probe": probe, "hold": hold, "probe2": probe2, "probe3": probe3, "Shared": shared,
@@ -226,9 +246,16 @@ end
 		shared.Tags, shared.Tags2 = []int64{11, 12}, []int64{21, 22, 23}
 		*cur = -5
 		mu.Lock()
-		seen6 = nil
+		seen6, seen8 = nil, nil
 		mu.Unlock()
 		eng.Execute(rb, true)
+		eng.ExecuteSelectedRules(rb, []string{"nest"})
+		mu.Lock()
+		s8 := append([]int64{}, seen8...)
+		mu.Unlock()
+		if len(s8) != 2 || s8[0] != 9 || s8[1] != 9 {
+			k.Violate("loop-state-kept", fmt.Sprintf("a loop left by break, then two nested loops over a 3-element slice: inner passes counted %v, expected [9 9]", s8), map[string]interface{}{"rule_text": text})
+		}
 		mu.Lock()
 		s6 := append([][2]int64{}, seen6...)
 		seen6 = nil
